@@ -65,6 +65,9 @@ PROP = {  # subject prefix -> (properties, what failed before the repair)
  "plain integer sums are not stopped at the null sentinel": ("C12 C01 C08", "repair of an earlier fix: int64 group sums / cumsum(skip_na=False) whose partial sum passed exactly through -2**63 (e.g. -2**62, -2**62, 5) returned -2**63 instead of the true sum, which is within the 64-bit range"),
  "a polars Enum key is categorical": ("C11", "GroupBy(pl.Series(..., dtype=pl.Enum(['c','b','a']))).sum(v) listed the labels in text order ['a','b'] instead of the declared category order ['b','a'] (pandas Categorical / pl.Categorical / Arrow dictionary keys keep theirs)"),
  "partial sums of key chunks are added plainly": ("C03 C12 C01", "on chunk-factorized keys a chunk's int64 / timedelta partial sum equal to -2**63 was dropped by the nansum merge: GroupBy(pa.chunked_array([[5,5],[3,3],[4,3]])).sum([5,9,-2**62,-2**62,7,1]) gave {3: 1} instead of {3: -2**63+1} (whole keys); found through the side condition sum_closed that the Coq proof of the chunk merge had to assume"),
+ "nanops adds the partial sums of the pieces without looking for nulls": ("C20", "nanops.nansum(np.array([-2**62, -2**62, 5, 1]), n_threads=2) gave 6 instead of -2**63+6 (NumPy; n_threads=1): a piece's int64 partial sum equal to the sentinel was skipped by the second stage; found through the side condition sum_closed the Coq proof needed"),
+ "keys converted to Python objects skip the jitted run detector": ("C02", "GroupBy(pa.chunked_array of booleans with a null) raised numba TypingError in the monotonic run detector"),
+ "a boolean key is labelled the same way however it is factorized": ("C11 C03", "GroupBy(bool key, sort=False): whole factorization listed [False, True] whatever came first, chunk-wise factorization first-appearance; a one-valued boolean key listed the absent label under observed_only=False only when factorized whole"),
  "apply returns an empty result": ("C05 C09", "median/apply with nothing selected raised IndexError (was known finding K2)"),
 }
 log = subprocess.run(["git", "-C", "/repo", "log", "--format=%h %s", "be63ad5..HEAD"], stdout=subprocess.PIPE).stdout.decode().splitlines()
